@@ -1141,11 +1141,16 @@ class PartialReduce(ArrayExpr):
         """Accept a slice being pushed through this PartialReduce."""
         from dask_array._blockwise import FusedBlockwise
 
-        if isinstance(self.array, FusedBlockwise):
+        bottom = self.array
+        while isinstance(bottom, PartialReduce):
+            # deeper levels hand the slice on to their own input
+            bottom = bottom.array
+        if isinstance(bottom, FusedBlockwise):
             # A fused group accepts no slice, so the slice would stay on top of
-            # it as a getitem task over the partials -- which need not be arrays
-            # (mean/var/arg partials are dicts).  Only reachable when a lowered
-            # tree is simplified again, e.g. an operation on ``x.optimize()``.
+            # it (or of a deeper combine level) as a getitem task over the
+            # partials -- which need not be arrays (mean/var/arg partials are
+            # dicts).  Only reachable when a lowered tree is simplified again,
+            # e.g. an operation on ``x.optimize()``.
             return None
         reduced_axes = set(self.split_every.keys())
 
